@@ -112,6 +112,17 @@ impl<'a> Gen<'a> {
                 s.push('\'');
                 s.push_str(&zeros);
                 s.push_str(&format!("{mag:o}"));
+                // `8` and `9` are not octal digits: TeX §445 ends the constant in front of them (`'78` is 7 and an 8 left
+                // in the input; a bare `'8` is a missing number)
+                match self.rng.below(24) {
+                    0 => s.push(*self.rng.pick(&['8', '9'])),
+                    1 => s.push_str(&format!("{}{}", self.rng.pick(&['8', '9']), self.rng.below(100))),
+                    2 => {
+                        s.truncate(1);
+                        s.push(*self.rng.pick(&['8', '9']));
+                    }
+                    _ => {}
+                }
             }
             3..=5 => {
                 s.push('"');
